@@ -1,4 +1,6 @@
 import MdsVerif.Proofs.MdiffApply
+import MdsVerif.Proofs.MdiffApplyU
+import MdsVerif.Proofs.MdiffApplyP
 import MdsVerif.Props.C13
 /-!
 # C14 (apply) — every rendering of a diff, applied to `Left` by the published rules, gives `Right`
@@ -74,5 +76,125 @@ example :
     EditScript.validB (editScript exL exR) exL exR = true ∧
     EditScript.canonicalB (editScript exL exR) = true ∧
     DiffApply.applyNormal (normal (Model.Mdiff.new exL exR).chunks) exL = some exR := by decide
+
+/-! ## unified (under "no empty range": F6) -/
+
+/-- **apply_unified_chunks_partial.**  For every chunk list that is `AllOK` and `Aligned` and in
+which no chunk has an empty left or right range (`hne`), the reference applier of the unified format
+(`@@ -l,s +r,t @@`, an omitted count is 1, exactly `s` old-side and `t` new-side lines, every old and
+context line checked against `L`, the new-file position checked against the output; an optional
+`---`/`+++` header is skipped) run on the text written by `Unified` — with any `FileInfo` or none —
+over `L` returns `R`.  (`EditOK` is not needed for this format.)
+
+`_partial`: the hypothesis `hne` is what is missing from the property text.  Without it the
+statement is FALSE for the code as it is — recorded defect F6: `uspan` spells an empty range
+`start,0`, POSIX/GNU spell it `start-1,0`; witness `Props.C14.C14_F6_witness`
+(`L = [a b c d]`, `R = [a b X c d]`, no context).  Nothing else is missing. -/
+theorem apply_unified_chunks_partial (cs : List (Chunk Line)) (L R : List Line) (fi : Option FileInfo)
+    (hok : AllOK cs L R) (hal : Aligned L R 1 1 cs)
+    (hne : ∀ c ∈ cs, c.lstart < c.lend ∧ c.rstart < c.rend) :
+    DiffApply.applyUnified (unified cs fi) L = some R :=
+  applyUnified_chunks cs L R fi hok hal hne
+
+/-- a file header with names and one timestamp, for the examples -/
+def exFi : FileInfo := ⟨str "old.txt", [], some (str "2024-01-02 03:04:05 +0000"), none⟩
+
+set_option maxRecDepth 8000 in
+/-- non-vacuity: hypotheses and conclusion on the two chunks of `New(exL, exR)` (one range of length
+one, written without count, and one of length two), without and with a file header -/
+example :
+    let cs := (Model.Mdiff.new exL exR).chunks
+    AllOK cs exL exR ∧ Aligned exL exR 1 1 cs ∧ (∀ c ∈ cs, c.lstart < c.lend ∧ c.rstart < c.rend) ∧
+    unified cs none = [str "@@ -2 +2 @@", str "-b", str "+X", str "@@ -5 +5,2 @@", str "-e", str "+Y",
+      str "+Z"] ∧
+    DiffApply.applyUnified (unified cs none) exL = some exR ∧
+    DiffApply.applyUnified (unified cs (some exFi)) exL = some exR := by decide
+
+/-- **apply_unified_new_partial.**  The unified rendering of `New(L, R)` applied to `L` gives `R`,
+provided no chunk has an empty left or right range, i.e. `New(L, R)` has no pure insertion and no
+pure deletion (`hne`; F6, see `apply_unified_chunks_partial` — exactly this is missing). -/
+theorem apply_unified_new_partial (L R : List Line) (fi : Option FileInfo)
+    (hvalid : EditScript.Valid (editScript L R) L R)
+    (hne : ∀ c ∈ (Model.Mdiff.new L R).chunks, c.lstart < c.lend ∧ c.rstart < c.rend) :
+    DiffApply.applyUnified (unified (Model.Mdiff.new L R).chunks fi) L = some R :=
+  apply_unified_chunks_partial (newChunks (editScript L R)) L R fi (C13.newChunks_ok _ L R hvalid).1
+    (C13.newChunks_aligned _ L R hvalid) hne
+
+set_option maxRecDepth 8000 in
+example :
+    EditScript.validB (editScript exL exR) exL exR = true ∧
+    (∀ c ∈ (Model.Mdiff.new exL exR).chunks, c.lstart < c.lend ∧ c.rstart < c.rend) ∧
+    DiffApply.applyUnified (unified (Model.Mdiff.new exL exR).chunks (some exFi)) exL = some exR := by
+  decide
+
+/-! ## the pipeline `New(L, R).AddContext(n).Unify()` -/
+
+/-- The chunks of the pipeline, for all inputs and every `n`: neither step fails, the unified
+chunks are `AllOK` and `Aligned` (`Props.C13.unify_ok_partial`), all their edits are `EditOK` and
+every chunk contains an edit that is not an Emit (`AddContext` only adds Emits, `UnifyChunks` only
+trims, drops and fuses Emits at chunk boundaries: `addContextChunks_good`, `unifyChunks_good`). -/
+theorem pipeline_chunks (L R : List Line) (n : Nat) (hvalid : EditScript.Valid (editScript L R) L R)
+    (hcanon : EditScript.Canonical (editScript L R)) :
+    ∃ d1 d2, (Model.Mdiff.new L R).addContext? n = some d1 ∧ d1.unify? = .ok d2 ∧
+      AllOK d2.chunks L R ∧ Aligned L R 1 1 d2.chunks ∧
+      (∀ c ∈ d2.chunks, ∀ e ∈ c.edits, EditOK e) ∧ (∀ c ∈ d2.chunks, ∃ e ∈ c.edits, e.op ≠ .emit) := by
+  have r := C13.newChunks_ok (editScript L R) L R hvalid
+  have ral := C13.newChunks_aligned (editScript L R) L R hvalid
+  obtain ⟨cs', h1, _, _⟩ := C13.addContext_ok L R n (newChunks (editScript L R)) r.1
+  obtain ⟨u, u1, u2, _, _, _, u6⟩ := C13.unify_ok_partial L R n _ cs' r.1 r.2.2.1 ral
+    (fun c hc => ⟨(r.2.2.2.2.2 c hc).2, r.2.2.2.2.1 c hc⟩) h1
+  have hok := newChunks_all EditOK _ (editOK_of_valid_canonical _ hvalid hcanon)
+  have g0 : ∀ c ∈ newChunks (editScript L R), Good EditOK c := by
+    intro c hc
+    refine ⟨hok c hc, ?_⟩
+    have hne := (r.2.2.2.2.2 c hc).2
+    cases he : c.edits with
+    | nil => exact absurd he hne
+    | cons e es => exact ⟨e, by simp, r.2.2.2.2.1 c hc e (by simp [he])⟩
+  have g2 := unifyChunks_good editOK_of_emit cs' u
+    (addContextChunks_good editOK_of_emit L R n _ cs' g0 h1) u1
+  refine ⟨{ Model.Mdiff.new L R with chunks := cs' }, { Model.Mdiff.new L R with chunks := u }, ?_, ?_,
+    u2, u6, fun c hc => (g2 c hc).1, fun c hc => (g2 c hc).2⟩
+  · show (addContextChunks L R n (newChunks (editScript L R))).map _ = _
+    rw [h1]; rfl
+  · show (unifyChunks cs').map _ = _
+    rw [u1]; rfl
+
+/-- **apply_normal_pipeline.**  For all `L`, `R`, `n`: `New(L, R).AddContext(n).Unify()` succeeds and
+the normal-format rendering of its chunks, applied to `L` by the reference rules, gives `R`. -/
+theorem apply_normal_pipeline (L R : List Line) (n : Nat)
+    (hvalid : EditScript.Valid (editScript L R) L R) (hcanon : EditScript.Canonical (editScript L R)) :
+    ∃ d1 d2, (Model.Mdiff.new L R).addContext? n = some d1 ∧ d1.unify? = .ok d2 ∧
+      DiffApply.applyNormal (normal d2.chunks) L = some R := by
+  obtain ⟨d1, d2, h1, h2, hok, hal, hed, _⟩ := pipeline_chunks L R n hvalid hcanon
+  exact ⟨d1, d2, h1, h2, apply_normal_chunks _ L R hok hal hed⟩
+
+set_option maxRecDepth 8000 in
+/-- non-vacuity: with `n = 1` the contexts of the two chunks meet in `c d` and `Unify` merges them
+into one chunk `[1,7)`/`[1,8)` of five edits (Emit, Replace, Emit, Replace, Emit) -/
+example :
+    exPipe.map (fun c => (c.lstart, c.lend, c.rstart, c.rend, c.edits.length)) = [(1, 7, 1, 8, 5)] ∧
+    normal exPipe = [str "2c2", str "< b", str "---", str "> X", str "5c5,6", str "< e", str "---",
+      str "> Y", str "> Z"] ∧
+    DiffApply.applyNormal (normal exPipe) exL = some exR := by decide
+
+/-- **apply_unified_pipeline_partial.**  The same for the unified format, with any `FileInfo` or
+none, provided no chunk of the result has an empty left or right range (`hne`; F6, see
+`apply_unified_chunks_partial` — exactly this is missing; it holds e.g. whenever every chunk got at
+least one line of context). -/
+theorem apply_unified_pipeline_partial (L R : List Line) (n : Nat) (fi : Option FileInfo)
+    (hvalid : EditScript.Valid (editScript L R) L R) (hcanon : EditScript.Canonical (editScript L R)) :
+    ∃ d1 d2, (Model.Mdiff.new L R).addContext? n = some d1 ∧ d1.unify? = .ok d2 ∧
+      ((∀ c ∈ d2.chunks, c.lstart < c.lend ∧ c.rstart < c.rend) →
+        DiffApply.applyUnified (unified d2.chunks fi) L = some R) := by
+  obtain ⟨d1, d2, h1, h2, hok, hal, _, _⟩ := pipeline_chunks L R n hvalid hcanon
+  exact ⟨d1, d2, h1, h2, fun hne => apply_unified_chunks_partial _ L R fi hok hal hne⟩
+
+set_option maxRecDepth 8000 in
+example :
+    (∀ c ∈ exPipe, c.lstart < c.lend ∧ c.rstart < c.rend) ∧
+    unified exPipe none = [str "@@ -1,6 +1,7 @@", str " a", str "-b", str "+X", str " c", str " d",
+      str "-e", str "+Y", str "+Z", str " f"] ∧
+    DiffApply.applyUnified (unified exPipe (some exFi)) exL = some exR := by decide
 
 end MdsVerif.Props.C14a
